@@ -141,6 +141,10 @@ func (b *Batch) Delete(key []byte) error {
 	b.mu.Lock()
 	defer b.mu.Unlock()
 
+	if b.committed {
+		return ErrBatchCommitted
+	}
+
 	logRecord := b.findPendingRecord(key)
 
 	// 缓存命中, 直接操作缓存
@@ -175,17 +179,19 @@ func (b *Batch) Delete(key []byte) error {
 }
 
 func (b *Batch) Commit() error {
-	// 提交后允许操作 DB 实例
-	defer b.db.mu.Unlock()
-
 	b.mu.Lock()
 	defer b.mu.Unlock()
 
-	if len(b.staged) == 0 {
-		return nil
-	}
 	if b.committed {
 		return ErrBatchCommitted
+	}
+	// 无论提交成功与否批处理均已结束, DB 锁释放且仅释放一次
+	b.committed = true
+	// 提交后允许操作 DB 实例
+	defer b.db.mu.Unlock()
+
+	if len(b.staged) == 0 {
+		return nil
 	}
 
 	err := b.flushStaged()
@@ -207,7 +213,6 @@ func (b *Batch) Commit() error {
 
 	b.staged = nil
 	b.stageIndex = nil
-	b.committed = true
 	return nil
 }
 
